@@ -40,11 +40,15 @@ class ErrorFunction:
         return self.seen.get(k)
 
 
-def finite_difference_obligation(vtypes, m=2, second_state=True):
+def finite_difference_obligation(vtypes, m=2, second_state=True, override=None):
+    """override=(name, value): the edge carries its own value of a step-size constant the class defines (an edge kind with a coarser or
+    finer step): the perturbation applied and the divisor must still be one and the same quantity."""
     def fn(it):
         poses = [sym_pose(t, "x%d" % k, unit=True) for k, t in enumerate(vtypes)]
         verts = [it.construct("Vertex", [Poly.const(10 + k), poses[k]]) for k in range(len(vtypes))]
         edge = custom_edge(it, [Poly.const(10 + k) for k in range(len(vtypes))], None, None, verts)
+        if override is not None:
+            sa(edge, override[0], Poly.const(override[1]))
         E = ErrorFunction(edge, m)
         edge.stubs["calc_error"] = E
         eps_seen = set()
@@ -119,6 +123,80 @@ def finite_difference_obligation(vtypes, m=2, second_state=True):
     return lambda pkg: run_obligation(pkg, fn)
 
 
+USER_EDGES = """
+import numpy as np
+from graphslam.edge.base_edge import BaseEdge
+
+
+class UserDisplacementEdge(BaseEdge):
+    # relative position of two points, written the way user code is written: in-place arithmetic on what the accessors hand out
+    def calc_error(self):
+        d = self.vertices[1].pose.position
+        d -= self.vertices[0].pose.position
+        d -= self.estimate
+        return d
+
+
+class UserPriorEdge(BaseEdge):
+    def calc_error(self):
+        err = self.vertices[0].pose.to_array()
+        err -= self.estimate
+        return err
+
+
+class UserMidpointEdge(BaseEdge):
+    # the third vertex lies half way between the first two
+    def calc_error(self):
+        mid = self.vertices[0].pose.position
+        mid += self.vertices[1].pose.position
+        mid *= 0.5
+        return self.vertices[2].pose.position - mid
+"""
+
+USER_CASES = [("UserDisplacementEdge", ("PoseR2", "PoseR2"), [-1, 1]), ("UserDisplacementEdge", ("PoseR3", "PoseR3"), [-1, 1]),
+              ("UserPriorEdge", ("PoseR2",), [1]), ("UserPriorEdge", ("PoseR3",), [1]),
+              ("UserMidpointEdge", ("PoseR2", "PoseR2", "PoseR2"), [Fraction(-1, 2), Fraction(-1, 2), 1])]
+
+
+def user_edge_obligation(cls, vtypes, coefs):
+    """A user-defined edge kind that defines only its error function, written as user code is written (in-place arithmetic on the
+    arrays the pose accessors return).  Its error is linear in the point coordinates, so the forward difference is exact: the
+    numerical Jacobian of vertex k must be coefs[k] * I, the error must be the same on every evaluation, and no pose may change."""
+    def fn0(pkg):
+        upkg = pkg.extended("user/custom_edges.py", USER_EDGES)
+
+        def fn(it):
+            n = CDIM[vtypes[0]]
+            poses = [sym_pose(t, "x%d" % k) for k, t in enumerate(vtypes)]
+            originals = [Pose(p.cls, list(p.data)) for p in poses]
+            verts = [it.construct("Vertex", [Poly.const(10 + k), poses[k]]) for k in range(len(vtypes))]
+            from ..interp import sym_vec
+            z = sym_vec("z", n)
+            edge = it.construct(cls, [[Poly.const(10 + k) for k in range(len(vtypes))], Arr([[Poly.const(1 if i == j else 0) for j in range(n)] for i in range(n)], 2),
+                                      z, verts])
+            e1 = it.call_method(edge, "calc_error", [])
+            e2 = it.call_method(edge, "calc_error", [])
+            if not (isinstance(e1, Arr) and isinstance(e2, Arr) and e1.same(e2)):
+                raise ObFail("two evaluations of a user-defined error function give different values: the arrays handed out by the pose "
+                             "accessors are not independent of the pose (in-place arithmetic on them changes the vertex)")
+            J = it.call_method(edge, "calc_jacobians", [])
+            for k, v in enumerate(verts):
+                now = ga(v, "pose")
+                if not isinstance(now, Pose) or len(now.data) != len(originals[k].data) or any(a != b for a, b in zip(now.data, originals[k].data)):
+                    raise ObFail("evaluating a user-defined edge (error / numerical Jacobians) changes the pose of vertex %d" % k)
+            if not isinstance(J, (list, tuple)) or len(J) != len(vtypes):
+                raise ObFail("calc_jacobians returns %r" % (J,))
+            for k, c in enumerate(coefs):
+                want = Arr([[Poly.const(c if i == j else 0) for j in range(n)] for i in range(n)], 2)
+                if not isinstance(J[k], Arr) or not J[k].same(want):
+                    raise ObFail("the numerical Jacobian of vertex %d of a linear user-defined error function is not its exact derivative %s * I" % (k, c))
+            if any(a != b for a, b in zip(z.data, ga(edge, "estimate").data)):
+                raise ObFail("evaluating the edge changes its measurement")
+            return dict(edge=cls, vertex_types=list(vtypes))
+        return run_obligation(upkg, fn)
+    return fn0
+
+
 def perturb_restore_obligation(vtypes, m=2):
     """C15-E2, decided on the translated code: while calc_jacobians differentiates numerically, every evaluation of the error sees
     either the original poses or exactly one coordinate of one vertex moved; afterwards every vertex holds its original pose
@@ -171,6 +249,19 @@ def run(run_, pkg, tier):
         key = "C16/finite-difference/%s" % "+".join(vt)
         if run_.wants(key):
             tasks.append((key, "C16-finite-difference-template", finite_difference_obligation(vt), w))
+    for cls, vt, coefs in USER_CASES:
+        key = "C16/user-edge/%s[%s]" % (cls, "+".join(vt))
+        if run_.wants(key):
+            tasks.append((key, "C16-user-defined-error-function", user_edge_obligation(cls, vt, coefs), w))
+    # step-size constants of the edge base class (numeric class attributes within the admissible range): an edge kind may carry its own
+    import ast as _ast
+    for cname in pkg.mro("BaseEdge"):
+        for name, expr in sorted(pkg.classes[cname].consts.items()):
+            if isinstance(expr, _ast.Constant) and isinstance(expr.value, float) and 1e-8 <= expr.value <= 1e-5:
+                key = "C16/finite-difference/own-step[%s]" % name
+                if run_.wants(key):
+                    tasks.append((key, "C16-finite-difference-template",
+                                  finite_difference_obligation(("PoseSE2", "PoseR2"), override=(name, Fraction(3, 10 ** 7))), w))
     tasks += contribution_tasks(run_, pkg, tier, prefix="C16")
     record(run_, tasks, run_tasks(pkg, tasks))
     run_.floor("C16 obligations", len(tasks) if run_.only is None else 10, 10)
